@@ -156,16 +156,36 @@ def pyx_as_python(src):
     return ns["tridisolve"], txt
 
 
-def run_solver(f, d, e, b, overwrite):
-    d1, e1, b1 = d.copy(), e.copy(), b.copy()
+def _lay(a, layout):
+    """the same values as a fresh array of the requested memory layout"""
+    a = np.asarray(a)
+    if layout == "strided":
+        big = np.zeros(2 * len(a) + 1, a.dtype)
+        big[1::2] = a
+        return big[1::2]
+    if layout == "reversed":                      # negative stride
+        r = a[::-1].copy()
+        return r[::-1]
+    return a.copy()
+
+
+def run_solver(f, d, e, b, overwrite, layout="contig", dtype=None, positional=False):
+    if dtype is not None:
+        d, e, b = d.astype(dtype), e.astype(dtype), b.astype(dtype)
+    d1, e1, b1 = _lay(d, layout), _lay(e, layout), _lay(b, layout)
     try:
         with np.errstate(all="ignore"):
-            r = f(d1, e1, b1, overwrite_b=overwrite)
+            r = f(d1, e1, b1, overwrite) if positional else f(d1, e1, b1, overwrite_b=overwrite)
         x = b1 if overwrite else r
         x = np.asarray(x, dtype="d")
         if x.shape != b.shape:
             return {"t": "bad", "what": "shape %s" % (x.shape,)}
-        return {"t": "ok", "x": hexl(x)}
+        mod = [nm for nm, a0, a1 in (("d", d, d1), ("e", e, e1)) + ((("b", b, b1),) if not overwrite else ())
+               if not np.array_equal(a0, a1, equal_nan=True)]
+        out = {"t": "ok", "x": hexl(x)}
+        if mod:
+            out["modified"] = mod                 # the caller's arrays were written to
+        return out
     except Exception as ex:
         return {"t": "exc", "cls": type(ex).__name__}
 
@@ -193,6 +213,16 @@ def exact_solve(d, e, b):
     for k in range(n - 2, -1, -1):
         x[k] = x[k] / D[k] - E[k] * x[k + 1]
     return D, lmax, x
+
+
+def exact_nonsingular(d, e, n):
+    """det T(d,e) != 0, by the three-term recurrence in Fractions"""
+    D = [Fraction(float(v)) for v in d]
+    E = [Fraction(float(v)) for v in e]
+    p0, p1 = Fraction(1), D[0]
+    for k in range(1, n):
+        p0, p1 = p1, D[k] * p1 - E[k - 1] ** 2 * p0
+    return p1 != 0
 
 
 def residual_rel(d, e, b, x):
@@ -288,14 +318,59 @@ def gen_system(rng):
             bm = max(abs(Fraction(v)) for v in b) or 1
             if lmax > 8 or min(abs(p) for p in piv) < Fraction(1, 16) or xm > 64 * bm:
                 continue
+        # magnitude range: matrix scaled by 2^s, right-hand side by 2^t (exact in binary64; the solution scales by 2^(t-s))
+        sm = rng.randint(-40, 40) if rng.random() < 0.45 else 0
+        sb = rng.randint(-40, 40) if rng.random() < 0.45 else 0
+        d = [float(v) * 2.0 ** sm for v in d]
+        e_used = [float(v) * 2.0 ** sm for v in e_used]
+        b = [float(v) * 2.0 ** sb for v in b]
         return {"fam": "solve", "kind": kind, "n": n, "d": hexl(d), "e": hexl(e_used), "b": hexl(b),
-                "overwrite": rng.random() < 0.5}
+                "scale": [sm, sb], "overwrite": rng.random() < 0.5,
+                "layout": rng.choice(["contig", "contig", "strided", "reversed"]), "positional": rng.random() < 0.25}
     return gen_system(rng)
+
+
+def gen_big_system(rng, n):
+    """a LARGE system whose exact LDL^T stays in small dyadics (pivots in {+-1/2,+-1,+-2,+-4}, multipliers in {0,+-1},
+    integer right-hand side): cheap for the Q model inside Coq and exact in float64"""
+    D = [rng.choice([-1, 1]) * rng.choice([0.5, 1.0, 1.0, 2.0, 4.0]) for _ in range(n)]
+    l = [rng.choice([-1, 0, 1, 1, -1]) for _ in range(n)]
+    e = [l[k] * D[k] for k in range(n)]
+    d = [D[0]] + [D[k] + e[k - 1] * l[k - 1] for k in range(1, n)]
+    b = [float(rng.randint(-3, 3)) for _ in range(n)]
+    return {"fam": "solve", "kind": "large-dyadic", "n": n, "d": hexl(d), "e": hexl(e), "b": hexl(b), "scale": [0, 0],
+            "overwrite": rng.random() < 0.5, "layout": rng.choice(["contig", "strided"]), "positional": False}
+
+
+def gen_float_system(rng, n):
+    """a large diagonally dominant float system for the float oracle only (no Coq evaluation)"""
+    r = np.random.RandomState(rng.randint(0, 2 ** 31 - 1))
+    e = r.randn(n)
+    e[-1] = r.randn()
+    d = (np.abs(e) + np.abs(np.r_[0, e[:-1]]) + 0.5 + r.rand(n)) * r.choice([-1, 1], n)
+    b = r.randn(n)
+    sm, sb = rng.randint(-40, 40), rng.randint(-40, 40)
+    return {"fam": "solve-float", "kind": "large-float", "n": n, "d": hexl(d * 2.0 ** sm), "e": hexl(e * 2.0 ** sm),
+            "b": hexl(b * 2.0 ** sb), "scale": [sm, sb], "overwrite": rng.random() < 0.5,
+            "layout": rng.choice(["contig", "strided", "reversed"]), "positional": False}
+
+
+def gen_alt_dtype_system(rng):
+    """integer-valued diagonally dominant system handed over as int64 / int32 / float32 arrays (oracle only)"""
+    n = rng.randint(1, 12)
+    e = [float(rng.randint(-3, 3)) for _ in range(n)]
+    d = [float(rng.choice([-1, 1]) * (abs(e[k - 1] if k else 0) + abs(e[k] if k + 1 < n else 0) + rng.randint(1, 4)))
+         for k in range(n)]
+    b = [float(rng.randint(-8, 8)) for _ in range(n)]
+    return {"fam": "solve-alt", "kind": "alt-dtype", "n": n, "d": hexl(d), "e": hexl(e), "b": hexl(b),
+            "dtype": rng.choice(["int64", "int32", "float32"]), "overwrite": rng.random() < 0.5,
+            "layout": rng.choice(["contig", "strided"]), "positional": False}
 
 
 def make_solve_case(impls, a):
     d, e, b = unhex(a["d"]), unhex(a["e"]), unhex(a["b"])
-    res = {name: run_solver(f, d, e, b, a["overwrite"]) for name, f in impls.solvers.items()}
+    res = {name: run_solver(f, d, e, b, a["overwrite"], a.get("layout", "contig"), None, a.get("positional", False))
+           for name, f in impls.solvers.items()}
     a = dict(a)
     a["observed"] = res
     piv, lmax, x = exact_solve(d, e, b)
@@ -304,9 +379,12 @@ def make_solve_case(impls, a):
         coq = "KZero %s %s %s" % (flist(d), flist(e), flist(b))
     else:
         a["zero_pivot"] = False
-        outs = [flist(unhex(r["x"])) if r["t"] == "ok" else "[]" for r in res.values()]
+        # an implementation that raised, or that wrote into the caller's d / e (the model's work vectors are copies),
+        # contributes no output: the K lemma then fails
+        outs = [flist(unhex(r["x"])) if r["t"] == "ok" and not r.get("modified") else "[]" for r in res.values()]
         coq = "KSolve %s %s %s %s" % (flist(d), flist(e), flist(b), llit(outs))
-    return Case(coq, a, "solve/%s/n=%s" % (a["kind"], a["n"] if a["n"] <= 3 else ("4-10" if a["n"] <= 10 else "11-40")),
+    return Case(coq, a, "solve/%s/n=%s" % (a["kind"], a["n"] if a["n"] <= 3 else ("4-10" if a["n"] <= 10 else
+                                                                                   ("11-40" if a["n"] <= 40 else ">1000"))),
                 nontrivial=(a["n"] >= 2))
 
 
@@ -318,8 +396,7 @@ def oracle_solve(a):
     for name, r in a["observed"].items():
         if a.get("zero_pivot"):
             # nonsingular? then the failure to solve is the known zero-pivot finding
-            T = np.diag(d) + (np.diag(e[:n - 1], 1) + np.diag(e[:n - 1], -1) if n > 1 else 0)
-            if abs(np.linalg.det(T)) > 1e-9:
+            if exact_nonsingular(d, e, n):
                 good = r["t"] == "ok" and np.isfinite(unhex(r["x"])).all() and residual_rel(d, e, b, unhex(r["x"])) < 1e-7
                 if not good:
                     fails.append(Fail(ZP_SOLVER, "tridisolve (%s) does not solve a nonsingular system with a zero pivot" % name,
@@ -329,6 +406,12 @@ def oracle_solve(a):
             fails.append(Fail("C07/tridisolve/%s/exception" % name, "tridisolve (%s) failed: %s" % (name, r), r, "solution"))
             continue
         x = unhex(r["x"])
+        if r.get("modified"):
+            fails.append(Fail("C07/tridisolve/%s/inputs-modified" % name,
+                              "tridisolve (%s) wrote into the caller's %s (work vectors must be copies; the inverse "
+                              "iteration re-uses d and e)" % (name, "/".join(r["modified"])), r["modified"], "d, e%s unchanged"
+                              % ("" if a["overwrite"] else ", b")))
+            continue
         if not np.isfinite(x).all():
             fails.append(Fail("C07/tridisolve/%s/non-finite" % name, "non-finite output", r, "solution"))
             continue
@@ -337,11 +420,90 @@ def oracle_solve(a):
             fails.append(Fail("C07/tridisolve/%s/residual" % name,
                               "T x - b is not zero: relative residual %.3g (n=%d)" % (rr, n), rr, "<= 1e-7"))
             continue
+        if n > 200:
+            continue
         T = np.diag(d) + (np.diag(e[:n - 1], 1) + np.diag(e[:n - 1], -1) if n > 1 else 0)
         xd = np.linalg.solve(T, b)
         if np.abs(xd - x).max() > 1e-6 * max(1e-300, np.abs(xd).max()):
             fails.append(Fail("C07/tridisolve/%s/dense-solve" % name, "differs from numpy.linalg.solve by %.3g"
                               % np.abs(xd - x).max(), hexl(x), hexl(xd)))
+    return fails
+
+
+INT_DTYPE = "C07/tridisolve/pure-python/integer-dtype"
+
+
+def float_residual_rel(d, e, b, x):
+    """max |T x - b| / (||T|| ||x|| + ||b||) in float64 (vectorised tridiagonal product) — for large n"""
+    n = len(b)
+    r = d * x - b
+    rs = np.abs(d).copy()
+    if n > 1:
+        r[1:] += e[:n - 1] * x[:-1]
+        r[:-1] += e[:n - 1] * x[1:]
+        rs[1:] += np.abs(e[:n - 1])
+        rs[:-1] += np.abs(e[:n - 1])
+    den = rs.max() * np.abs(x).max() + np.abs(b).max()
+    return float(np.abs(r).max() / den) if den else float(np.abs(r).max())
+
+
+def run_float_case(impls, a):
+    """large / alternative-dtype systems: every solver form, judged by the float oracle only"""
+    d, e, b = unhex(a["d"]), unhex(a["e"]), unhex(a["b"])
+    dt = a.get("dtype")
+    res = {}
+    for name, f in impls.solvers.items():
+        if dt and name == "pyx-as-python":
+            continue          # the .pyx declares double buffers; its stripped body has no dtype semantics of its own
+        res[name] = run_solver(f, d, e, b, a["overwrite"], a.get("layout", "contig"), dt, a.get("positional", False))
+    a = dict(a)
+    a["observed"] = res
+    return a
+
+
+def oracle_float_case(a):
+    d, e, b = unhex(a["d"]), unhex(a["e"]), unhex(a["b"])
+    n = len(b)
+    dt = a.get("dtype")
+    tol = 1e-9 if not dt else (2e-4 if dt == "float32" else 1e-9)
+    fails = []
+    ref = None
+    if n > 1:
+        try:
+            from scipy.linalg import solve_banded
+            ab = np.zeros((3, n))
+            ab[0, 1:] = e[:n - 1]
+            ab[1] = d
+            ab[2, :-1] = e[:n - 1]
+            ref = solve_banded((1, 1), ab, b)
+        except Exception:
+            ref = None
+    for name, r in a["observed"].items():
+        if r["t"] == "exc":
+            if dt and r["cls"] in ("ValueError", "TypeError"):
+                continue                          # a clean rejection of a dtype it does not support
+            fails.append(Fail("C07/tridisolve/%s/exception" % name, "tridisolve (%s) failed: %s" % (name, r), r, "solution"))
+            continue
+        if r["t"] != "ok":
+            fails.append(Fail("C07/tridisolve/%s/exception" % name, "tridisolve (%s): %s" % (name, r), r, "solution"))
+            continue
+        if r.get("modified"):
+            fails.append(Fail("C07/tridisolve/%s/inputs-modified" % name, "tridisolve (%s) wrote into the caller's %s"
+                              % (name, "/".join(r["modified"])), r["modified"], "inputs unchanged"))
+            continue
+        x = unhex(r["x"])
+        rr = float_residual_rel(d, e, b, x) if np.isfinite(x).all() else float("inf")
+        bad = rr > tol
+        if not bad and ref is not None and np.abs(ref - x).max() > max(tol, 1e-7) * 100 * max(np.abs(ref).max(), 1e-300):
+            bad = True
+            rr = float(np.abs(ref - x).max() / max(np.abs(ref).max(), 1e-300))
+        if bad:
+            if dt and dt.startswith("int") and name == "pure-python":
+                fails.append(Fail(INT_DTYPE, "pure-Python tridisolve on integer-dtype arrays: the work vectors inherit the integer "
+                                  "dtype and every quotient is truncated (relative residual %.3g)" % rr, hexl(x), "solution or a TypeError"))
+            else:
+                fails.append(Fail("C07/tridisolve/%s/residual" % name, "T x - b is not zero: relative residual / difference to "
+                                  "scipy solve_banded %.3g (n=%d, dtype=%s)" % (rr, n, dt or "float64"), rr, "<= %g" % tol))
     return fails
 
 
@@ -443,10 +605,24 @@ def run_dpss(mod, a):
     kw = {}
     if a.get("interp_from") is not None:
         kw = {"interp_from": a["interp_from"], "interp_kind": a.get("interp_kind", "linear")}
+    form = a.get("argform")
+    cN, cNW, cK = N, NW, K
+    if form == "np-int":
+        cN, cK = np.int64(N), np.int64(K)
+        if "interp_from" in kw:
+            kw["interp_from"] = np.int64(kw["interp_from"])
+    elif form == "int-NW" and float(NW).is_integer():
+        cNW = int(NW)
+    elif form == "float-Kmax":
+        cK = float(K)
+    if form == "keywords":
+        call = lambda: mod.dpss_windows(N=cN, NW=cNW, Kmax=cK, **kw)
+    else:
+        call = lambda: mod.dpss_windows(cN, cNW, cK, **kw)
     with Recorder(mod, flip=a.get("flip", 0)) as rec:
         try:
             with np.errstate(all="ignore"):
-                v, lam = with_timeout(20.0, lambda: mod.dpss_windows(N, NW, K, **kw))
+                v, lam = with_timeout(20.0, call)
             out = {"t": "ok", "v": np.array(v, dtype="d"), "lam": np.array(lam, dtype="d")}
         except Exception as ex:
             out = {"t": "exc", "cls": type(ex).__name__, "msg": str(ex)[:200]}
@@ -659,6 +835,9 @@ def run_lowbias(mod, a):
     s = s - s.mean()
     if np.abs(s).min() < 1e-3:
         s = s + np.linspace(-1e-2, 1e-2, N) * rng.randn()
+    # magnitude range and offset of the signal (the selection must not depend on them)
+    s = (s + a.get("soffset", 0.0)) * 2.0 ** a.get("sscale", 0)
+    mode = a.get("mode", "on")
     if a.get("ev") is not None:
         ev = unhex(a["ev"])
         K = len(ev)
@@ -676,7 +855,16 @@ def run_lowbias(mod, a):
     mod.dpss_windows = lambda *aa, **kk: (rows.copy(), np.array(ev, dtype="d").copy())
     try:
         with np.errstate(all="ignore"):
-            ts, kept_ev = mod.tapered_spectra(s, (a.get("NW", 4.0), K), low_bias=True)
+            if mode == "array":          # precomputed tapers: no selection, no eigenvalues
+                r_ = mod.tapered_spectra(s, rows.copy())          # returns the spectra alone on this path
+                ts = r_[0] if isinstance(r_, tuple) else r_
+                kept_ev = ev
+            elif mode == "off":
+                ts, kept_ev = mod.tapered_spectra(s, (a.get("NW", 4.0), K), low_bias=False)
+            elif mode == "kw-default":   # low_bias defaults to True; tapers handed over as a list
+                ts, kept_ev = mod.tapered_spectra(s, [a.get("NW", 4.0), K])
+            else:
+                ts, kept_ev = mod.tapered_spectra(s, (a.get("NW", 4.0), K), low_bias=True)
         ts = np.asarray(ts)
         sd = s - s.mean()
         rec = np.fft.ifft(ts, axis=-1).real[..., :N] / sd
@@ -698,11 +886,11 @@ def oracle_lowbias(a, o):
         return None
     if o["t"] != "ok":
         ev = unhex(o["ev"])
-        if not (ev > 0.9).any():
+        if a.get("mode") not in ("off", "array") and not (ev > 0.9).any():
             return None            # nothing to keep: the FFT of an empty stack is outside the property
         return Fail("C07/tapered_spectra/low_bias-exception", "tapered_spectra failed: %s" % o["cls"], o, "selection")
     ev = unhex(o["ev"])
-    want = [i for i in range(len(ev)) if ev[i] > 0.9]
+    want = [i for i in range(len(ev)) if ev[i] > 0.9 or a.get("mode") in ("off", "array")]
     if o["kept"] != want or list(unhex(o["kept_ev"])) != [ev[i] for i in want]:
         return Fail("C07/tapered_spectra/low_bias-selection", "low_bias keeps tapers %s, required exactly those with eigenvalue > 0.9: %s"
                     % (o["kept"], want), o, want)
@@ -731,14 +919,19 @@ def gen_dpss_configs(ctx):
         nw = rng.choice(nws)
         kcfg.append({"fam": "dpss", "N": N, "NW": nw, "Kmax": rng.randint(1, int(2 * nw)),
                      "interp_from": M, "interp_kind": rng.choice(KINDS)})
-    # numerical validation: the quantifier's range
-    top = ctx.scale(512, 4096)
+    # numerical validation: the quantifier's range N = 8..4096 — in BOTH tiers up to the stated maximum, with sizes
+    # at / just above powers of two and odd / prime sizes (the references are numpy/scipy: cheap)
+    top = 4096
+    FORMS = [None, None, None, "np-int", "int-NW", "float-Kmax", "keywords"]
+    for N in [1024, 1025, 2048, 2049, 3001, 4093, 4095, 4096] + ([] if ctx.quick else [513, 1023, 1031, 2047, 2053, 3072, 4001]):
+        nws = [nw for nw in NWS if admissible(N, nw)]
+        for nw in (sorted(set(rng.sample(nws, 2) + [8.0])) if ctx.quick else nws):
+            vcfg.append({"fam": "dpss", "N": N, "NW": nw, "Kmax": int(2 * nw), "argform": rng.choice(FORMS)})
     Ns = set(range(8, 65))
     Ns.update([127, 128, 129, 255, 256, 257, 511, 512])
     while len(Ns) < ctx.scale(57 + 8 + 40, 57 + 8 + 160):
         Ns.add(rng.randint(65, 512))
     if not ctx.quick:
-        Ns.update([1023, 1024, 2047, 2048, 4095, 4096])
         for _ in range(24):
             Ns.add(rng.randint(513, top))
     for N in sorted(Ns):
@@ -747,7 +940,7 @@ def gen_dpss_configs(ctx):
                 continue
             if N > 64 and ctx.quick and rng.random() < 0.5:
                 continue
-            vcfg.append({"fam": "dpss", "N": N, "NW": nw,
+            vcfg.append({"fam": "dpss", "N": N, "NW": nw, "argform": rng.choice(FORMS),
                          "Kmax": int(2 * nw) if rng.random() < 0.75 else rng.randint(1, int(2 * nw))})
     for _ in range(ctx.scale(120, 600)):
         N = rng.randint(16, top if rng.random() < 0.2 else 512)
@@ -756,8 +949,8 @@ def gen_dpss_configs(ctx):
         if not nws:
             continue
         nw = rng.choice(nws)
-        vcfg.append({"fam": "dpss", "N": N, "NW": nw, "Kmax": rng.randint(1, int(2 * nw)),
-                     "interp_from": M, "interp_kind": rng.choice(KINDS)})
+        vcfg.append({"fam": "dpss", "N": N, "NW": nw, "Kmax": rng.randint(1, int(2 * nw)), "argform": rng.choice(FORMS),
+                     "interp_from": M, "interp_kind": rng.choice(KINDS + [1, 2, 3])})
     return kcfg, vcfg
 
 
@@ -773,7 +966,9 @@ def gen_lowbias(ctx):
             ev = sorted([rng.choice(LB_VALUES + [0.999, 0.97, 0.91]) for _ in range(k)], reverse=True)
         else:
             ev = [rng.uniform(0.8, 1.0) for _ in range(k)]
-        out.append({"fam": "lowbias", "N": rng.randint(12, 24), "ev": hexl(ev), "seed": rng.randint(0, 10 ** 6), "NW": 4.0})
+        out.append({"fam": "lowbias", "N": rng.randint(12, 24), "ev": hexl(ev), "seed": rng.randint(0, 10 ** 6), "NW": 4.0,
+                    "mode": rng.choice(["on", "on", "on", "kw-default", "off", "array"]),
+                    "sscale": rng.choice([0, 0, rng.randint(-40, 40)]), "soffset": rng.choice([0.0, 3.0, -100.0])})
     for _ in range(ctx.scale(20, 100)):
         N = rng.randint(16, 64)
         nws = [nw for nw in NWS if admissible(N, nw)]
@@ -791,6 +986,10 @@ def make_lowbias_case(mod, a, label):
     r["observed"] = o
     if o["t"] != "ok":
         c = Case("", r, "lowbias/exception", False)
+        c.in_k = False
+        return c
+    if a.get("mode") in ("off", "array"):
+        c = Case("", r, "lowbias/%s" % a["mode"], True)      # no selection on these paths: judged by the oracle only
         c.in_k = False
         return c
     coq = "KLowBias %s %s %s" % (flist(unhex(o["ev"])), llit([nlit(i) for i in o["kept"]]), flist(unhex(o["kept_ev"])))
@@ -835,7 +1034,20 @@ def run(ctx):
     # ---- K, part 1: the solver against the Q model
     sys_cases = [a for a in corpus() if a.get("fam") == "solve"]
     sys_cases += [gen_system(ctx.rng) for _ in range(ctx.scale(450, 3000))]
+    # large systems: a few with small-dyadic exact factorisation go through the Coq model as well (sizes at / just
+    # above powers of two), the rest (random floats, n up to 5000; int / float32 arrays) through the float oracle only
+    sys_cases += [gen_big_system(ctx.rng, n) for n in ([1025, 2049, 4097] if ctx.quick else [1000, 1025, 2049, 3001, 4097, 5000])]
     cases = [make_solve_case(impls, a) for a in sys_cases]
+    float_cases = [run_float_case(impls, gen_float_system(ctx.rng, n))
+                   for n in [64, 513, 1000, 1025, 2049, 4097, 5000] + [ctx.rng.randint(41, 5000) for _ in range(ctx.scale(8, 60))]]
+    float_cases += [run_float_case(impls, gen_alt_dtype_system(ctx.rng)) for _ in range(ctx.scale(40, 300))]
+    float_cases += [run_float_case(impls, a) for a in corpus() if a.get("fam") in ("solve-float", "solve-alt")]
+    for a in float_cases:
+        c = Case("", a, "%s/%s" % (a["fam"], a.get("dtype") or ("n=%d" % a["n"] if a["n"] > 1000 else "n<=1000")), True)
+        ctx.count_case(c)
+        for f in oracle_float_case(a):
+            f.replay = {"entry_point": "nitime.utils.tridisolve / nitime._utils.tridisolve"}
+            ctx.report_fail(f, c)
 
     # ---- K, part 2: discrete steps of dpss_windows on the implementation's own vectors
     kcfg, vcfg = gen_dpss_configs(ctx)
@@ -922,7 +1134,7 @@ def run(ctx):
                 "sign convention, unit norm of interpolated tapers 1e-12; run for every solver form present",
         "dpss_windows_runs": nval,
         "largest_deviation_observed": {k: (float("%.3g" % v) if isinstance(v, float) else v) for k, v in stats.items()},
-        "N_range": [8, ctx.scale(512, 4096)],
+        "N_range": [8, 4096],
         "zero_pivot_breakdowns(N,NW)": sorted(set((z[0], z[1]) for z in zp))[:80],
         "zero_pivot_breakdown_runs": len(zp),
     }
@@ -962,6 +1174,12 @@ def replay(ctx, path):
         c = make_solve_case(impls, {k: v for k, v in a.items() if k not in ("observed", "zero_pivot")})
         fails = oracle_solve(c.replay)
         print(json.dumps(c.replay, indent=1))
+    elif fam in ("solve-float", "solve-alt"):
+        r = run_float_case(impls, {k: v for k, v in a.items() if k != "observed"})
+        fails = oracle_float_case(r)
+        print(json.dumps({k: (v if k not in ("d", "e", "b") or len(v) <= 16 else "%d values" % len(v)) for k, v in r.items()
+                          if k != "observed"}, indent=1))
+        print({k: (v["t"], v.get("cls"), v.get("modified")) for k, v in r["observed"].items()})
     elif fam == "lowbias":
         mod = impls.module(a.get("form", ""))
         o = run_lowbias(mod, a)
@@ -972,7 +1190,7 @@ def replay(ctx, path):
         mod = impls.module(a.get("form", ""))
         out = run_dpss(mod, a)
         fails = validate_dpss(a, out, {})
-        print(json.dumps({"args": {k: a.get(k) for k in ("N", "NW", "Kmax", "interp_from", "interp_kind", "flip")},
+        print(json.dumps({"args": {k: a.get(k) for k in ("N", "NW", "Kmax", "interp_from", "interp_kind", "flip", "argform")},
                           "form": a.get("form"), "result": out["t"], "exception": out.get("cls")}, indent=1))
     else:
         print("replay file names no input (broken lemma only): %s" % json.dumps(d)[:2000])
